@@ -298,7 +298,8 @@ def _job(j):
 
 def run(tier, seed):
     rep = Report(PROP, tier, seed, "model_checking")
-    sizes = [(300, 280), (257, 300)] + ([(520, 260)] if tier == "thorough" else [])
+    # (600, 560) fills whole 256-pixel tiles (inputs that cover a complete tile take other code paths)
+    sizes = [(300, 280), (257, 300), (600, 560)] + ([(520, 260)] if tier == "thorough" else [])
     rep.rule = (
         "E2: mosaics %r x decompositions (cuts at 100/256/257, 10-pixel overlaps with agreeing data, 3-5 pixel NaN borders, 3-way splits) x both input parities "
         "(uniform) x all input orders x {fits, npy}: MultiTanProcessor vs tiling the pasted mosaic. E1: the multi-TAN stage with shared tiles under the "
@@ -312,6 +313,8 @@ def run(tier, seed):
                 for order in itertools.permutations(range(len(rects))):
                     for fmt in ("fits", "npy"):
                         if tier == "quick" and fmt == "npy" and (len(rects) > 2 or not bottom_up):
+                            continue
+                        if tier == "quick" and size[0] >= 600 and not ("nan" in dname or dname in ("three", "quad-l")):
                             continue
                         cases.append((size, dname, rects, bottom_up, order, fmt))
     cases = rng_order(cases, seed)
